@@ -1,5 +1,6 @@
 """C19 A refused operation leaves the document exactly as it was (monitor M4 around every call that raises)."""
 import copy
+import datetime
 import decimal
 import operator
 
@@ -13,7 +14,7 @@ SMALL_BLOCKS = 4      # runner: every 4th case keeps its stores in 2..10-token b
 GATES = {
     'quick': {'site:token-twice-in-batch': 50, 'site:consumed-node': 30, 'site:claim-after-release': 200, 'site:meta-update-attached': 30, 'cases_in_small_blocks': 50, 'evaluations': 4500, 'refused_calls_judged': 4500, 'site:attached-node-in-batch': 300, 'site:attached-node-single': 500,
               'site:index-or-key': 700, 'site:size-mismatch': 200, 'site:raw-text': 170, 'site:cost-combination': 45, 'site:cost-attached': 100,
-              'site:arithmetic-attached': 170, 'site:ancestor-offered': 100, 'consumed_node_as_receiver': 25, 'site:claim-refused': 300, 'site:payee-attached': 50, 'site:store-foreign-token': 100,
+              'site:arithmetic-attached': 170, 'site:ancestor-offered': 100, 'site:constructor-attached': 100, 'constructor_given_signed_attached_value': 15, 'consumed_node_as_receiver': 25, 'site:claim-refused': 220, 'site:payee-attached': 50, 'site:store-foreign-token': 100,
               'site:whole-store-child': 50, 'batch_positions_seen': 3},
     'thorough': {'evaluations': 100000, 'batch_positions_seen': 3},
 }
@@ -116,7 +117,7 @@ GARBAGE = ['garbage', '', '"unterminated', '2000-13-45', 'TRUE1', '12x', '#', 'a
 def special_step(col, r, f, text, log):
     """One deliberately invalid call outside the catalog. Returns False to end the history."""
     kind = r.choice(['raw-text', 'raw-text', 'raw-text', 'cost-combination', 'cost-attached', 'arithmetic-attached', 'arithmetic-attached', 'claim-refused', 'claim-refused',
-                     'payee-attached', 'store-foreign-token', 'whole-store-child', 'token-twice-in-batch', 'consumed-node', 'meta-update-attached', 'claim-after-release', 'claim-after-release', 'ancestor-offered'])
+                     'payee-attached', 'store-foreign-token', 'whole-store-child', 'token-twice-in-batch', 'consumed-node', 'meta-update-attached', 'claim-after-release', 'claim-after-release', 'ancestor-offered', 'constructor-attached'])
     donors = []
     call = None
     nodes = list(walker.walk(f))
@@ -353,6 +354,23 @@ def special_step(col, r, f, text, log):
         side = r.choice(['raw_spacing_before', 'raw_spacing_after'])
         desc = f'{p_}.{side} = <batch holding one new token twice>'
         call = lambda: setattr(m_, side, batch)
+    elif kind == 'constructor-attached':
+        # a constructor of a new, free model is handed a node that lives in the document: it has to refuse before it prepares
+        # (parenthesises, re-indents ...) any of its arguments in place
+        cands = [(p, m) for p, m in nodes if isinstance(m, (models.NumberExpr, models.Amount))]
+        signed = [(p, m) for p, m in cands if common.pr(m).lstrip()[:1] in '+-']
+        if not cands:
+            return True
+        p_, src = r.choice(signed) if signed and r.random() < 0.8 else r.choice(cands)
+        how = r.choice(['Custom.from_value', 'Custom.from_children'])
+        desc = f'{how}(..., values=[1, <attached {type(src).__name__} {common.pr(src)!r:.20} at {p_}>])'
+        dt = datetime.date(2000, 1, 1)
+        if how == 'Custom.from_value':
+            call = lambda: models.Custom.from_value(dt, 'y', [D(1), src])
+        else:
+            call = lambda: models.Custom.from_children(models.Date.from_value(dt), models.EscapedString.from_value('y'),
+                                                       [models.NumberExpr.from_value(D(1)), src])
+        col.count('constructor_given_signed_attached_value' if (p_, src) in signed else 'constructor_given_attached_value')
     elif kind == 'ancestor-offered':
         # the document itself (it spans its whole store, like every free-standing node) offered to one of its own lists
         wr = [(p, a, getattr(m, a)) for p, m in walker.tree_models(f) for a, d, k in ops.catalog(type(m)) if k in ('raw_list', 'raw_list_comments')]
@@ -426,6 +444,10 @@ def special_step(col, r, f, text, log):
     if kind == 'meta-update-attached':
         col.ev()
         col.violation('meta-update-attached:accepted', f'{desc} was accepted although one node lives in another place', wit)
+        return False
+    if kind == 'constructor-attached':
+        col.ev()
+        col.violation('constructor-attached:accepted', f'{desc} was accepted although the node lives in the document', wit)
         return False
     if kind == 'consumed-node':
         col.ev()
